@@ -100,7 +100,17 @@ func c12BoundedPasses(c *Ctx) {
 		var out []RetCase
 		for _, rc := range g.ReturnCases() {
 			if k, ok := constUint64(rc.Vals[0]); ok && k == extra {
-				out = append(out, rc)
+				// (not where the request of a child's pass is handed on: under
+				// `recursive call == extra`)
+				handedOn := hasFact(g.CaseFacts(rc), func(f Fact) bool {
+					return cmpMatch(f, token.EQL, func(v ssa.Value) bool {
+						call, isCall := v.(*ssa.Call)
+						return isCall && m.callee(call.Common()) == g.Fn
+					}, func(v ssa.Value) bool { k, ok := constUint64(v); return ok && k == extra })
+				})
+				if !handedOn {
+					out = append(out, rc)
+				}
 			}
 		}
 		return out
